@@ -159,6 +159,7 @@ fn child(args: &[String]) -> ! {
         match s.kind {
             // one object, FDT-only FTI, FDT never sent: packets are cached
             "cache_one_object" | "object_packets_after_fdt_only_fti" => {
+                let mut win_peak = 0isize;
                 let total = (cache / psize + 8) * 12 * s.scale.min(4);
                 let total = total.min(if cache > (1 << 20) { 40_000 } else { 400_000 });
                 saturated = total * psize > 3 * cache;
@@ -170,8 +171,14 @@ fn child(args: &[String]) -> ! {
                     if k % 16 == 0 || k < 64 {
                         observe(&rx, &mut p);
                     }
-                    if k + 1 == total / 10 || k + 1 == total {
-                        live_marks.push((pushes, alloc::live() - baseline));
+                    // slope test on window PEAKS (an object that exceeds its cache is abandoned and a new one
+                    // starts: the live heap is a sawtooth); both windows lie beyond the point where the bound
+                    // is first reached
+                    let first_mark = (total / 10).max(cache / psize * 3 / 2 + 16);
+                    win_peak = win_peak.max(alloc::live() - baseline);
+                    if k + 1 == first_mark || k + 1 == total {
+                        live_marks.push((pushes, win_peak));
+                        win_peak = 0;
                     }
                 }
             }
@@ -380,8 +387,12 @@ fn child(args: &[String]) -> ! {
         if fdtr > 0 {
             add("unfinished_fdt_not_released", format!("{} unfinished FDT instance(s) still held after the timeouts and a cleanup", fdtr), json!(null));
         }
-        if live_after > (192 << 10) {
-            add("heap_not_released", format!("{} bytes still live after the timeouts and a cleanup (baseline + 192 KiB allowed)", live_after), json!({"kind": s.kind}));
+        // hash maps keep the capacity of their high-water mark (about 60 bytes per object slot and 125 bytes per
+        // session slot were measured): that is not memory "associated with" the released entities. A stalled
+        // object or idle session that is really kept costs at least ten times more (>= 1.6 KB measured).
+        let allowed = (192isize << 10) + 160 * (p.max_objects + p.max_sessions) as isize;
+        if live_after > allowed {
+            add("heap_not_released", format!("{} bytes still live after the timeouts and a cleanup (baseline + {} bytes allowed: 192 KiB + 160 bytes of container capacity per peak object/session)", live_after, allowed), json!({"kind": s.kind}));
         }
     }
     drop(rx);
